@@ -149,10 +149,12 @@ def run(ck):
     ops = gen(ck.rng, quick)
     sp = os.path.join(ck.workdir, "script.ndjson")
     write_script(sp, ops)
+    spz = os.path.join(ck.workdir, "script.nz.ndjson")
+    write_script(spz, nz_filter(ops))
     for b, f in specs:
         cid = cfg_id(b, True, "release", f)
         tp = os.path.join(ck.workdir, cid + ".trace.ndjson")
-        run_driver(bins[cid], cid, sp, tp)
+        run_driver(bins[cid], cid, spz if f else sp, tp)
         traces.append((cid, tp))
     ck.validate(traces)
     for lab, tp in traces[:2]:
